@@ -931,6 +931,10 @@ def Struct(*members_: Union[DataType, Type[DataType]]) -> Type[StructType]:
             if isinstance(values, dict):
                 return b"".join(typ.encode(values[typ.name]) for typ in cls.members)
             else:
+                if len(values) < len(cls.members):
+                    raise DataError(
+                        f"Not enough values, expected {len(cls.members)} and got {len(values)}"
+                    )
                 return b"".join(
                     typ.encode(val) for typ, val in zip(cls.members, values)
                 )
